@@ -22,7 +22,7 @@ from hypothesis.stateful import (
     rule,
 )
 
-from vf.core import Ctx, Violation
+from vf.core import CaseTimeout, Ctx, Violation
 
 
 def make_machine(executor_cls: type, init_strategy: Any,
@@ -40,11 +40,17 @@ def make_machine(executor_cls: type, init_strategy: Any,
         def __init__(self) -> None:
             super().__init__()
             self.ex = None
+            self.dead = False
             self.hist: dict[str, Any] = {"init": None, "ops": []}
 
         def _guard(self, fn: Callable[[], None]) -> None:
             try:
                 fn()
+            except CaseTimeout:
+                # a watchdog fired: the rest of this history is inconclusive
+                self.CTX.rec.inconc("case_watchdog")
+                self.ex = None
+                self.dead = True
             except Violation as v:
                 self.HOLDER["history"] = {
                     "init": self.hist["init"], "ops": list(self.hist["ops"])}
